@@ -25,6 +25,8 @@ pub struct Pert {
     pub order: Vec<usize>,
     /// run unrelated commands on other inputs first
     pub noise: bool,
+    /// all commands on one thread (thread-local state survives), as in a long-lived host
+    pub same_thread: bool,
 }
 
 #[derive(Clone, Debug)]
@@ -287,11 +289,11 @@ fn gen_pert(r: &mut Rng, nsteps: usize, uses_now: bool, with_m_flag: bool, dir_o
     if r.chance(3, 4) {
         r.shuffle(&mut order);
     }
-    Pert { sim, env, cwd, heap_seed, order, noise: r.chance(1, 3) }
+    Pert { sim, env, cwd, heap_seed, order, noise: r.chance(1, 3), same_thread: r.chance(1, 2) }
 }
 
 fn pert_to_json(p: &Pert) -> Value {
-    json!({"sim": serde_json::to_value(&p.sim).unwrap(), "env": p.env, "cwd": p.cwd, "heap_seed": p.heap_seed, "order": p.order, "noise": p.noise})
+    json!({"sim": serde_json::to_value(&p.sim).unwrap(), "env": p.env, "cwd": p.cwd, "heap_seed": p.heap_seed, "order": p.order, "noise": p.noise, "same_thread": p.same_thread})
 }
 fn pert_from_json(v: &Value) -> Option<Pert> {
     Some(Pert {
@@ -301,6 +303,7 @@ fn pert_from_json(v: &Value) -> Option<Pert> {
         heap_seed: v.get("heap_seed")?.as_u64()?,
         order: serde_json::from_value(v.get("order")?.clone()).ok()?,
         noise: v.get("noise")?.as_bool()?,
+        same_thread: v.get("same_thread").and_then(|b| b.as_bool()).unwrap_or(false),
     })
 }
 
@@ -416,6 +419,7 @@ impl C05 {
         req.env = p.env.clone();
         req.cwd = p.cwd.as_ref().map(|c| if let Some(rest) = c.strip_prefix("@/") { format!("{}{}", w.root, rest) } else { c.clone() });
         req.heap_seed = p.heap_seed;
+        req.same_thread = p.same_thread;
         let mut steps = Vec::new();
         if p.noise {
             steps.extend(noise_steps(&w.root));
@@ -528,6 +532,9 @@ impl C05 {
         if !nsteps_once || p.noise {
             d.push("history");
         }
+        if p.same_thread && (!nsteps_once || p.noise) {
+            d.push("same-thread");
+        }
         d
     }
 
@@ -569,6 +576,7 @@ impl C05 {
         }
         // 2. history: no noise, a single occurrence
         let _ = try_p!(Pert { noise: false, ..p.clone() });
+        let _ = try_p!(Pert { same_thread: false, ..p.clone() });
         if scn.steps.len() == 1 {
             let _ = try_p!(Pert { order: vec![0], ..p.clone() });
             if p.order.len() > 1 {
